@@ -552,12 +552,804 @@ Proof.
       destruct (nodup_mid _ _ _ inv_cid_nodup0) as (N1 & N2 & _).
       apply Forall_mid in inv_rc0. destruct inv_rc0 as (F1 & Fc & F2). apply Forall_mid. repeat split.
       * apply (rc_others (st_resvs s) rs' (g_id c)); auto.
-        intros k Hk'. rewrite C, Hc. destruct (N.eqb_spec (r_cid r) k); [congruence|lia].
+        intros k Hk'. rewrite C. destruct (N.eqb_spec (r_cid r) k); [congruence|lia].
       * cbn [g_rc g_id]. destruct Fc as [Fc _]. rewrite Fc, C, Hc, N.eqb_refl. reflexivity.
       * cbn [g_rc]. lia.
       * apply (rc_others (st_resvs s) rs' (g_id c)); auto.
-        intros k Hk'. rewrite C, Hc. destruct (N.eqb_spec (r_cid r) k); [congruence|lia].
+        intros k Hk'. rewrite C. destruct (N.eqb_spec (r_cid r) k); [congruence|lia].
     + unfold rs'. rewrite map_app, set_size_rkeys. apply Forall_app. split; [assumption|].
       cbn [map]. constructor; [exact Hk|constructor].
     + now rewrite W.
+Qed.
+
+Lemma in_keys_other (l1 : list creg) c l2 k :
+  In k (keys (l1 ++ c :: l2)) -> fst k <> g_id c -> In k (keys (l1 ++ l2)).
+Proof.
+  rewrite !keys_app. cbn [keys map]. rewrite !in_app_iff. cbn [In]. intros [H|[H|H]] Hn; auto.
+  exfalso. apply Hn. now rewrite <- H.
+Qed.
+
+Lemma do_drop_good s r :
+  Inv s -> find_resv (r_id r) (st_resvs s) = Some r -> good (do_drop s r).
+Proof.
+  intros I H. unfold do_drop.
+  set (rs' := remove_resv (r_id r) (st_resvs s)).
+  assert (W : forall g, wsum g rs' + (if g (r_cid r) (r_spill r) then r_size r else 0) = wsum g (st_resvs s)).
+  { intros g. exact (wsum_remove g _ _ _ H). }
+  assert (P1 : exists p1, (if r_size r =? 0 then Some (st_pool s)
+                           else pool_shrink (st_pool s) (r_spill r) (r_cid r) (r_size r)) = Some p1
+                          /\ pool_ok p1 (keys (st_regs s)) rs').
+  { destruct (N.eqb_spec (r_size r) 0) as [E|E].
+    - exists (st_pool s). split; [reflexivity|]. eapply pool_same_ok; [|apply I].
+      intros g. specialize (W g). rewrite E in W. destruct (g (r_cid r) (r_spill r)); lia.
+    - apply pool_shrink_ok with (rs := st_resvs s); auto using inv_keys_nodup, inv_pool. }
+  destruct P1 as (p1 & -> & Hp1).
+  pose proof (inv_find_key s _ r I H) as Hk.
+  destruct (reg_split _ _ (key_in_regs s r Hk)) as (l1 & c & l2 & Ecs & Hc & Hn1 & _ & Hd).
+  rewrite Hd. clear Hd.
+  destruct (find_split _ _ _ H) as (a & b & Ers & _ & _ & Erm). fold rs' in Erm.
+  assert (C : forall k, cnt k rs' + (if r_cid r =? k then 1 else 0) = cnt k (st_resvs s)).
+  { intros k. rewrite Erm, Ers, !cnt_app. cbn [cnt]. lia. }
+  assert (Co : forall k, k <> g_id c -> cnt k rs' = cnt k (st_resvs s)).
+  { intros k Hk'. specialize (C k). destruct (N.eqb_spec (r_cid r) k); [congruence|lia]. }
+  pose proof (C (r_cid r)) as Cc. rewrite N.eqb_refl in Cc.
+  destruct I. cbn [fst snd].
+  fold (rc_ok (st_resvs s)) in inv_rc0.
+  rewrite Ecs in inv_rc0, inv_cid_nodup0, inv_cid_lt0.
+  pose proof (key_spill _ _ _ _ inv_cid_nodup0 (eq_ind _ (fun x => In (rkey r) (keys x)) Hk _ Ecs)
+                        (eq_sym Hc)) as Hsp. cbn [rkey snd] in Hsp.
+  destruct (nodup_mid _ _ _ inv_cid_nodup0) as (N1 & N2 & N3).
+  apply Forall_mid in inv_rc0. destruct inv_rc0 as (F1 & [Fc Fc1] & F2).
+  rewrite map_app in inv_cid_lt0. cbn [map] in inv_cid_lt0. apply Forall_mid in inv_cid_lt0.
+  destruct inv_cid_lt0 as (L1 & Lc & L2).
+  rewrite Ers, map_app in inv_rid_nodup0, inv_rid_lt0. cbn [map] in inv_rid_nodup0, inv_rid_lt0.
+  apply Forall_mid in inv_rid_lt0. destruct inv_rid_lt0 as (R1 & _ & R2).
+  assert (Hlim : wsum g_all rs' < usize_lim) by (pose proof (W g_all); lia).
+  destruct (N.leb_spec (g_rc c) 1) as [Hl|Hl].
+  - (* the last reservation of this consumer: unregister *)
+    assert (Z : cnt (r_cid r) rs' = 0) by (rewrite Hc in Fc; lia).
+    assert (Kc : keys (st_regs s) = keys l1 ++ (r_cid r, r_spill r) :: keys l2).
+    { rewrite Ecs, keys_app. cbn [keys map]. now rewrite Hc, Hsp. }
+    rewrite Kc in Hp1.
+    destruct (pool_unregister_ok p1 (keys l1) (keys l2) (r_cid r) (r_spill r) rs') as (p2 & -> & Hp2); auto.
+    { now rewrite keys_fst, <- Hc. }
+    split; [|discriminate]. cbn [fst].
+    constructor; cbn [upd st_pool st_regs st_resvs st_next_rid st_next_cid]; auto.
+    + now rewrite keys_app.
+    + rewrite Erm, map_app. eapply NoDup_remove_1; eauto.
+    + rewrite Erm, map_app. apply Forall_app; auto.
+    + rewrite map_app. apply Forall_app; auto.
+    + fold (rc_ok rs'). apply Forall_app. split; eapply rc_others; eauto.
+    + rewrite Ecs in inv_reg0. rewrite Ers, map_app in inv_reg0. cbn [map] in inv_reg0.
+      apply Forall_mid in inv_reg0. destruct inv_reg0 as (G1 & _ & G2).
+      apply cnt_zero_notin in Z. rewrite Erm, map_app in Z.
+      rewrite Erm, map_app.
+      assert (G : Forall (fun k => In k (keys (l1 ++ c :: l2))) (map rkey a ++ map rkey b)) by (apply Forall_app; auto).
+      rewrite Forall_forall in G. apply Forall_forall. intros k Hin.
+      apply (in_keys_other l1 c l2); [now apply G|].
+      intros E. apply Z. rewrite <- map_app in *. apply in_map_iff in Hin. destruct Hin as (x & <- & Hx).
+      apply in_map_iff. exists x. split; [|assumption]. cbn [rkey fst] in E. congruence.
+  - (* other reservations still share the registration *)
+    split; [|discriminate]. cbn [fst].
+    assert (K : keys (l1 ++ mkReg (g_id c) (g_spill c) (g_rc c - 1) :: l2) = keys (st_regs s)).
+    { rewrite Ecs, !keys_app. reflexivity. }
+    constructor; cbn [upd st_pool st_regs st_resvs st_next_rid st_next_cid]; rewrite ?K; auto.
+    + rewrite Erm, map_app. eapply NoDup_remove_1; eauto.
+    + rewrite Erm, map_app. apply Forall_app; auto.
+    + rewrite <- keys_fst, K, keys_fst, Ecs. assumption.
+    + rewrite map_app. cbn [map g_id]. apply Forall_mid. repeat split; auto.
+    + fold (rc_ok rs'). apply Forall_mid. repeat split.
+      * eapply rc_others; eauto.
+      * cbn [g_rc g_id]. rewrite Hc in *. lia.
+      * cbn [g_rc]. lia.
+      * eapply rc_others; eauto.
+    + rewrite Erm, map_app. rewrite Ers, map_app in inv_reg0. cbn [map] in inv_reg0.
+      apply Forall_mid in inv_reg0. destruct inv_reg0 as (G1 & _ & G2). apply Forall_app; auto.
+Qed.
+
+Lemma regs_cids_lt s : Inv s -> Forall (fun i => i < st_next_cid s) (map r_cid (st_resvs s)).
+Proof.
+  intros I. pose proof (inv_reg s I) as G. pose proof (inv_cid_lt s I) as L.
+  rewrite Forall_forall in *. intros k Hin. apply in_map_iff in Hin. destruct Hin as (x & <- & Hx).
+  apply L. rewrite <- keys_fst. apply in_map_iff. exists (rkey x). split; [reflexivity|].
+  apply G. now apply in_map.
+Qed.
+
+Lemma register_good s sp : Inv s -> good (step s (ORegister sp)).
+Proof.
+  intros I. cbn [step]. split; [|discriminate]. cbn [fst].
+  set (new := mkResv (st_next_rid s) (st_next_cid s) sp 0).
+  assert (Hn : ~ In (st_next_cid s) (map r_cid (st_resvs s))) by (apply Forall_lt_notin, regs_cids_lt, I).
+  assert (W : forall g, wsum g (st_resvs s ++ [new]) = wsum g (st_resvs s)).
+  { intros g. rewrite wsum_app, wsum_cons, wsum_nil. cbn [new r_size]. destruct (g _ _); lia. }
+  assert (C : forall k, k <> st_next_cid s -> cnt k (st_resvs s ++ [new]) = cnt k (st_resvs s)).
+  { intros k Hk. rewrite cnt_app. cbn [cnt new r_cid]. destruct (N.eqb_spec (st_next_cid s) k); [congruence|lia]. }
+  pose proof (Forall_lt_notin _ _ (inv_cid_lt s I)) as Hc.
+  destruct I. constructor; cbn [st_pool st_regs st_resvs st_next_rid st_next_cid].
+  - rewrite keys_app. cbn [keys map g_id g_spill]. eapply pool_same_ok; [exact W|].
+    apply pool_register_ok; auto. + now rewrite keys_fst. + now apply notin_wsum_zero.
+  - rewrite map_app. cbn [map new r_id]. now apply NoDup_snoc.
+  - rewrite map_app. apply Forall_app. split; [now apply Forall_lt_weaken|]. cbn [map new r_id]. constructor; [lia|constructor].
+  - rewrite map_app. cbn [map g_id]. now apply NoDup_snoc.
+  - rewrite map_app. apply Forall_app. split; [now apply Forall_lt_weaken|]. cbn [map g_id]. constructor; [lia|constructor].
+  - fold (rc_ok (st_resvs s ++ [new])). fold (rc_ok (st_resvs s)) in inv_rc0. apply Forall_app. split.
+    + eapply rc_others; eauto.
+    + constructor; [|constructor]. unfold rc_ok. cbn [g_rc g_id]. rewrite cnt_app. cbn [cnt new r_cid].
+      rewrite N.eqb_refl. apply cnt_zero_notin in Hn. lia.
+  - rewrite map_app. apply Forall_app. split.
+    + eapply Forall_impl; [|exact inv_reg0]. cbv beta. intros k Hk. rewrite keys_app. apply in_app_iff. now left.
+    + cbn [map new]. constructor; [|constructor]. rewrite keys_app. apply in_app_iff. right. now left.
+  - now rewrite W.
+Qed.
+
+Lemma on_resv_good s rid k :
+  Inv s -> (forall r, find_resv (r_id r) (st_resvs s) = Some r -> good (k r)) -> good (on_resv s rid k).
+Proof.
+  intros I Hk. unfold on_resv. destruct (find_resv rid (st_resvs s)) as [r|] eqn:E.
+  - apply Hk. now rewrite (find_id _ _ _ E).
+  - apply good_same; [assumption|discriminate].
+Qed.
+
+Theorem step_good s o : Inv s -> good (step s o).
+Proof.
+  intros I. destruct o; try (cbn [step]; apply on_resv_good; [assumption|intros r Hr]).
+  - now apply register_good.
+  - now apply do_try_grow_good.
+  - now apply do_grow_good.
+  - apply do_shrink_good; auto; discriminate.
+  - apply do_shrink_good; auto; discriminate.
+  - destruct (n ?= r_size r).
+    + apply good_same; [assumption|discriminate].
+    + apply do_shrink_good; auto; discriminate.
+    + now apply do_grow_good.
+  - destruct (n ?= r_size r).
+    + apply good_same; [assumption|discriminate].
+    + apply do_shrink_good; auto; discriminate.
+    + now apply do_try_grow_good.
+  - now apply do_free_good.
+  - now apply do_split_good.
+  - now apply do_split_good.
+  - now apply do_split_good.
+  - now apply do_drop_good.
+  - cbn [step]. split; [|discriminate]. cbn [fst]. destruct I.
+    constructor; cbn [upd st_pool st_regs st_resvs st_next_rid st_next_cid]; auto. now apply pool_reset_ok.
+Qed.
+
+Lemma step_inv s o : Inv s -> Inv (fst (step s o)).
+Proof. intros I. apply (step_good s o I). Qed.
+
+Lemma run_inv s h : Inv s -> Inv (run s h).
+Proof. revert s. induction h as [|o h IH]; intros s I; cbn [run]; [assumption|]. apply IH, step_inv, I. Qed.
+
+Lemma run_app s h1 h2 : run s (h1 ++ h2) = run (run s h1) h2.
+Proof. revert s. induction h1 as [|o h1 IH]; intros s; cbn [run app]; [reflexivity|]. apply IH. Qed.
+
+Lemma run_states_inv s h : Inv s -> Forall Inv (run_states s h).
+Proof.
+  revert s. induction h as [|o h IH]; intros s I; cbn [run_states]; constructor.
+  - now apply step_inv. - apply IH. now apply step_inv.
+Qed.
+
+(* ================================================================== property lemmas *)
+Ltac step_cases :=
+  cbn [step] in *;
+  unfold on_resv, do_try_grow, do_grow, do_shrink, do_free, do_split, do_drop in *;
+  repeat match goal with
+         | |- context [match ?x with _ => _ end] => destruct x eqn:?
+         | |- context [if ?x then _ else _] => destruct x eqn:?
+         end;
+  cbn [fst snd upd st_pool st_regs st_resvs st_next_rid st_next_cid] in *.
+
+(* ------------------------------------------------------------------ exact accounting *)
+Theorem reserved_eq_sum_live cfg h :
+  fresh cfg = true ->
+  total (run (init cfg) h) = sum_sizes (st_resvs (run (init cfg) h)).
+Proof. intros F. apply inv_reserved, run_inv, init_inv, F. Qed.
+
+Theorem reserved_zero_when_all_dropped cfg h :
+  fresh cfg = true -> st_resvs (run (init cfg) h) = [] -> total (run (init cfg) h) = 0.
+Proof. intros F E. rewrite reserved_eq_sum_live, E by assumption. reflexivity. Qed.
+
+Theorem never_faults cfg h o :
+  fresh cfg = true -> snd (step (run (init cfg) h) o) <> Fault.
+Proof. intros F. apply step_good, run_inv, init_inv, F. Qed.
+
+Lemma find_In rid rs r : find_resv rid rs = Some r -> In r rs.
+Proof. intros H. destruct (find_split _ _ _ H) as (a & b & -> & _). apply in_app_iff. right. now left. Qed.
+
+Lemma In_size_le r rs : In r rs -> r_size r <= wsum g_all rs.
+Proof.
+  induction rs as [|x rs IH]; cbn [In]; [tauto|]. rewrite wsum_cons. unfold g_all at 1.
+  intros [->|H]; [lia|]. apply IH in H. lia.
+Qed.
+
+Theorem usize_bounded cfg h :
+  fresh cfg = true ->
+  let s := run (init cfg) h in
+  total s < usize_lim /\ (forall r, In r (st_resvs s) -> r_size r < usize_lim) /\
+  (forall cid, consumer_sum cid (st_resvs s) < usize_lim).
+Proof.
+  intros F s. pose proof (run_inv _ h (init_inv cfg F)) as I. fold s in I.
+  pose proof (inv_lim s I) as L. unfold total. rewrite (inv_reserved s I). repeat split; auto.
+  - intros r Hr. apply In_size_le in Hr. lia.
+  - intros cid. pose proof (wsum_le_all (g_cid cid) (st_resvs s)). unfold consumer_sum. lia.
+Qed.
+
+(* ------------------------------------------------------------------ a refused call changes nothing *)
+Definition refused (o : out) : bool :=
+  match o with Err | Panic | NoSuch | Overflow | Fault => true | _ => false end.
+
+Theorem refused_unchanged s o : refused (snd (step s o)) = true -> fst (step s o) = s.
+Proof.
+  destruct o; step_cases; cbn [refused]; intros; try reflexivity; try discriminate.
+Qed.
+
+(* ------------------------------------------------------------------ what the pool total does *)
+Lemma reserved_grow p sp cid n : pool_reserved (pool_grow p sp cid n) = pool_reserved p + n.
+Proof. induction p; cbn [pool_grow pool_reserved peak_record]; auto; try lia. destruct sp; cbn [pool_reserved]; lia. Qed.
+
+Lemma reserved_shrink p sp cid n p' :
+  pool_shrink p sp cid n = Some p' -> pool_reserved p' + n = pool_reserved p.
+Proof.
+  revert p'. induction p; cbn [pool_shrink pool_reserved]; intros p' H.
+  - destruct (N.leb_spec n used); inversion H. cbn [pool_reserved]. lia.
+  - destruct (N.leb_spec n used); inversion H. cbn [pool_reserved]. lia.
+  - destruct sp.
+    + destruct (N.leb_spec n spillable); inversion H. cbn [pool_reserved]. lia.
+    + destruct (N.leb_spec n unspillable); inversion H. cbn [pool_reserved]. lia.
+  - destruct (pool_shrink p sp cid n); [|discriminate]. destruct (tr_shrink cid n tracked); inversion H.
+    cbn [pool_reserved]. now apply IHp.
+  - destruct (pool_shrink p sp cid n); [|discriminate]. destruct (n <=? reserved); inversion H.
+    cbn [pool_reserved]. now apply IHp.
+Qed.
+
+Lemma reserved_register p cid sp : pool_reserved (pool_register p cid sp) = pool_reserved p.
+Proof. induction p; cbn [pool_register pool_reserved]; auto. destruct sp; reflexivity. Qed.
+
+Lemma reserved_unregister p cid sp p' : pool_unregister p cid sp = Some p' -> pool_reserved p' = pool_reserved p.
+Proof.
+  revert p'. induction p; cbn [pool_unregister pool_reserved]; intros p' H; try (now inversion H).
+  - destruct sp; [destruct (1 <=? num_spill)|]; inversion H; reflexivity.
+  - destruct (pool_unregister p cid sp); inversion H. cbn [pool_reserved]. now apply IHp.
+  - destruct (pool_unregister p cid sp); inversion H. cbn [pool_reserved]. now apply IHp.
+Qed.
+
+Lemma reserved_reset p : pool_reserved (pool_reset_peak p) = pool_reserved p.
+Proof. induction p; cbn [pool_reset_peak pool_reserved]; auto. Qed.
+
+(* ------------------------------------------------------------------ Greedy: the limit *)
+Definition greedy_limit (p : pool) : option N :=
+  match pool_base p with PGreedy l _ => Some l | _ => None end.
+Definition fair_limit (p : pool) : option N :=
+  match pool_base p with PFair l _ _ _ => Some l | _ => None end.
+
+(* the bottom pool is a Greedy pool of limit l that is within its limit *)
+Definition lim_ok (l : N) (p : pool) : Prop :=
+  match pool_base p with PGreedy l' u => l' = l /\ u <= l | _ => False end.
+
+Lemma lim_ok_total l p : lim_ok l p -> pool_reserved p <= l.
+Proof. unfold lim_ok. induction p; cbn [pool_base pool_reserved]; try tauto; auto. Qed.
+
+Lemma lim_ok_limit l p : lim_ok l p -> greedy_limit p = Some l.
+Proof. unfold lim_ok, greedy_limit. destruct (pool_base p); try tauto. intros [-> _]. reflexivity. Qed.
+
+Lemma try_grow_greedy l p sp cid z n p' :
+  greedy_limit p = Some l -> pool_try_grow p sp cid z n = Some p' -> lim_ok l p'.
+Proof.
+  unfold greedy_limit, lim_ok. revert p'. induction p; cbn [pool_base pool_try_grow]; intros p' G H; try discriminate.
+  - inversion G; subst. destruct (N.leb_spec (used + n) l); inversion H. cbn [pool_base]. split; [reflexivity|lia].
+  - destruct (pool_try_grow p sp cid z n); inversion H. cbn [pool_base]. now apply IHp.
+  - destruct (pool_try_grow p sp cid z n); inversion H. cbn [pool_base peak_record]. now apply IHp.
+Qed.
+
+Lemma shrink_greedy l p sp cid n p' : lim_ok l p -> pool_shrink p sp cid n = Some p' -> lim_ok l p'.
+Proof.
+  unfold lim_ok. revert p'. induction p; cbn [pool_base pool_shrink]; intros p' G H; try tauto.
+  - destruct (N.leb_spec n used); inversion H. cbn [pool_base]. split; [tauto|lia].
+  - destruct (pool_shrink p sp cid n); [|discriminate]. destruct (tr_shrink cid n tracked); inversion H.
+    cbn [pool_base]. now apply IHp.
+  - destruct (pool_shrink p sp cid n); [|discriminate]. destruct (n <=? reserved); inversion H.
+    cbn [pool_base]. now apply IHp.
+Qed.
+
+Lemma register_greedy l p cid sp : lim_ok l p -> lim_ok l (pool_register p cid sp).
+Proof. unfold lim_ok. induction p; cbn [pool_base pool_register]; auto. destruct sp; auto. Qed.
+
+Lemma unregister_greedy l p cid sp p' : lim_ok l p -> pool_unregister p cid sp = Some p' -> lim_ok l p'.
+Proof.
+  unfold lim_ok. revert p'. induction p; cbn [pool_base pool_unregister]; intros p' G H; try tauto.
+  - now inversion H.
+  - destruct (pool_unregister p cid sp); inversion H. cbn [pool_base]. now apply IHp.
+  - destruct (pool_unregister p cid sp); inversion H. cbn [pool_base]. now apply IHp.
+Qed.
+
+Lemma reset_greedy l p : lim_ok l p -> lim_ok l (pool_reset_peak p).
+Proof. unfold lim_ok. induction p; cbn [pool_base pool_reset_peak]; auto. Qed.
+
+Lemma fresh_greedy l p : fresh p = true -> greedy_limit p = Some l -> lim_ok l p.
+Proof.
+  unfold greedy_limit, lim_ok. induction p; cbn [fresh pool_base]; intros F G; try discriminate.
+  - inversion G; subst. apply N.eqb_eq in F. subst. split; [reflexivity|lia].
+  - apply andb_prop in F. now apply IHp.
+  - repeat (apply andb_prop in F; destruct F as [F ?]). now apply IHp.
+Qed.
+
+Lemma step_greedy l s o :
+  fallible o = true -> lim_ok l (st_pool s) -> lim_ok l (st_pool (fst (step s o))).
+Proof.
+  intros Ff L. destruct o; try discriminate; step_cases;
+    eauto using try_grow_greedy, lim_ok_limit, shrink_greedy, register_greedy, unregister_greedy, reset_greedy.
+  - (* drop: shrink, then unregister if it was the last reservation of the consumer *)
+    assert (lim_ok l p).
+    { destruct (r_size r =? 0); [inversion Heqo0; subst; assumption|eauto using shrink_greedy]. }
+    destruct b; [eauto using unregister_greedy|inversion Heqo2; subst; assumption].
+Qed.
+
+Theorem greedy_never_exceeds_by_try_grow cfg l h :
+  fresh cfg = true -> greedy_limit cfg = Some l -> forallb fallible h = true ->
+  total (run (init cfg) h) <= l.
+Proof.
+  intros F G Hf. apply lim_ok_total.
+  assert (L : lim_ok l (st_pool (init cfg))) by (cbn [init st_pool]; now apply fresh_greedy).
+  revert L Hf. generalize (init cfg). induction h as [|o h IH]; intros s L Hf; cbn [run]; [assumption|].
+  cbn [forallb] in Hf. apply andb_prop in Hf. destruct Hf as [H1 H2]. apply IH; [|assumption].
+  now apply step_greedy.
+Qed.
+
+(* the additional bytes requested by a fallible growth call, if [o] is one *)
+Definition fallible_growth (s : state) (o : op) : option (N * N) :=
+  match o with
+  | OTryGrow rid n => Some (rid, n)
+  | OTryResize rid n =>
+      match find_resv rid (st_resvs s) with
+      | Some r => if r_size r <? n then Some (rid, n - r_size r) else None
+      | None => None
+      end
+  | _ => None
+  end.
+
+Lemma fallible_growth_step s o rid n :
+  fallible_growth s o = Some (rid, n) -> step s o = on_resv s rid (fun r => do_try_grow s r n).
+Proof.
+  destruct o; cbn [fallible_growth step]; try discriminate.
+  - intros H; inversion H; reflexivity.
+  - unfold on_resv. destruct (find_resv rid0 (st_resvs s)) as [r|] eqn:E; [|discriminate].
+    destruct (N.ltb_spec (r_size r) n0); [|discriminate]. intros Hx; inversion Hx; subst. rewrite E.
+    destruct (N.compare_spec n0 (r_size r)); try lia. reflexivity.
+Qed.
+
+Theorem greedy_grant_within_limit s o rid n l s' :
+  greedy_limit (st_pool s) = Some l -> fallible_growth s o = Some (rid, n) ->
+  step s o = (s', Done) -> total s' <= l.
+Proof.
+  intros G Fg. rewrite (fallible_growth_step _ _ _ _ Fg). unfold on_resv, do_try_grow.
+  destruct (find_resv rid (st_resvs s)); [|discriminate]. destruct (overflows s n); [discriminate|].
+  destruct (pool_try_grow _ _ _ _ _) eqn:E; [|discriminate]. intros H; inversion H; subst.
+  unfold total. cbn [upd st_pool]. eapply lim_ok_total, try_grow_greedy; eauto.
+Qed.
+
+(* ------------------------------------------------------------------ FairSpillPool: the fair share *)
+Lemma try_grow_fair_spill l p ks rs cid z n p' :
+  pool_ok p ks rs -> fair_limit p = Some l -> pool_try_grow p true cid z n = Some p' ->
+  z + n <= (if N.of_nat (length (filter snd ks)) =? 0 then l - wsum g_unspillable rs
+            else (l - wsum g_unspillable rs) / N.of_nat (length (filter snd ks))).
+Proof.
+  unfold fair_limit. revert p'. induction p; cbn [pool_ok pool_base pool_try_grow]; intros p' Hok Hl H; try discriminate.
+  - inversion Hl; subst. destruct Hok as (-> & _ & ->).
+    destruct (N.ltb_spec (if N.of_nat (length (filter snd ks)) =? 0 then l - wsum g_unspillable rs
+                          else (l - wsum g_unspillable rs) / N.of_nat (length (filter snd ks))) (z + n));
+      [discriminate|assumption].
+  - destruct (pool_try_grow p true cid z n) eqn:E; [|discriminate]. destruct Hok. eapply IHp; eauto.
+  - destruct (pool_try_grow p true cid z n) eqn:E; [|discriminate]. destruct Hok. eapply IHp; eauto.
+Qed.
+
+Lemma try_grow_fair_unspill l p ks rs cid z n p' :
+  pool_ok p ks rs -> fair_limit p = Some l -> pool_try_grow p false cid z n = Some p' ->
+  n <= l - wsum g_all rs.
+Proof.
+  unfold fair_limit. revert p'. induction p; cbn [pool_ok pool_base pool_try_grow]; intros p' Hok Hl H; try discriminate.
+  - inversion Hl; subst. destruct Hok as (_ & -> & ->).
+    destruct (N.ltb_spec (l - (wsum g_unspillable rs + wsum g_spillable rs)) n); [discriminate|].
+    pose proof (wsum_split rs). lia.
+  - destruct (pool_try_grow p false cid z n) eqn:E; [|discriminate]. destruct Hok. eapply IHp; eauto.
+  - destruct (pool_try_grow p false cid z n) eqn:E; [|discriminate]. destruct Hok. eapply IHp; eauto.
+Qed.
+
+Lemma find_set_size rid z rs r :
+  find_resv rid rs = Some r ->
+  find_resv rid (set_size rid z rs) = Some (mkResv (r_id r) (r_cid r) (r_spill r) z).
+Proof.
+  induction rs as [|x rs IH]; cbn [find_resv set_size]; [discriminate|].
+  destruct (N.eqb_spec (r_id x) rid) as [E|E]; intros H.
+  - inversion H; subst x. cbn [find_resv r_id]. destruct (N.eqb_spec (r_id r) rid); [reflexivity|contradiction].
+  - cbn [find_resv]. destruct (N.eqb_spec (r_id x) rid); [contradiction|]. now apply IH.
+Qed.
+
+Lemma num_spillable_keys cs : num_spillable cs = N.of_nat (length (filter snd (keys cs))).
+Proof.
+  unfold num_spillable, keys. f_equal. induction cs as [|c cs IH]; cbn [map filter snd]; [reflexivity|].
+  destruct (g_spill c); cbn [length]; congruence.
+Qed.
+
+Lemma spill_key_counted (k : N * bool) ks : In k ks -> snd k = true -> 1 <= N.of_nat (length (filter snd ks)).
+Proof.
+  intros Hi Hs. assert (In k (filter snd ks)) by (apply filter_In; auto).
+  destruct (filter snd ks); [contradiction|]. cbn [length]. lia.
+Qed.
+
+Theorem fair_grant_within_share s o rid n l s' r' :
+  Inv s -> fair_limit (st_pool s) = Some l -> fallible_growth s o = Some (rid, n) ->
+  step s o = (s', Done) -> find_resv rid (st_resvs s') = Some r' ->
+  if r_spill r'
+  then 1 <= num_spillable (st_regs s') /\
+       r_size r' <= (l - sum_unspillable (st_resvs s')) / num_spillable (st_regs s')
+  else n = 0 \/ total s' <= l.
+Proof.
+  intros I Fl Fg. rewrite (fallible_growth_step _ _ _ _ Fg). unfold on_resv, do_try_grow.
+  destruct (find_resv rid (st_resvs s)) as [r|] eqn:Fr; [|discriminate].
+  destruct (overflows s n); [discriminate|].
+  destruct (pool_try_grow _ _ _ _ _) as [p'|] eqn:E; [|discriminate]. intros H; inversion H; subst s'. clear H.
+  cbn [upd st_resvs st_regs]. pose proof (find_id _ _ _ Fr) as Hid. rewrite Hid.
+  rewrite (find_set_size _ _ _ _ Fr). intros H; inversion H; subst r'. clear H. cbn [r_spill r_size].
+  pose proof (inv_find_key s _ _ I Fr) as Hk.
+  destruct (r_spill r) eqn:Sp.
+  - pose proof (try_grow_fair_spill _ _ _ _ _ _ _ _ (inv_pool s I) Fl E) as B.
+    rewrite <- num_spillable_keys in B.
+    assert (N1 : 1 <= num_spillable (st_regs s)).
+    { rewrite num_spillable_keys. apply (spill_key_counted (rkey r)); auto. }
+    destruct (N.eqb_spec (num_spillable (st_regs s)) 0); [lia|].
+    split; [assumption|]. unfold sum_unspillable.
+    pose proof (set_size_grow_eq _ _ _ n Fr g_unspillable) as W.
+    change (g_unspillable (r_cid r) (r_spill r)) with (negb (r_spill r)) in W. rewrite Sp in W. cbn [negb] in W.
+    rewrite W, N.add_0_r. exact B.
+  - pose proof (try_grow_fair_unspill _ _ _ _ _ _ _ _ (inv_pool s I) Fl E) as B.
+    apply try_grow_is_grow in E. subst p'. unfold total. cbn [upd st_pool]. rewrite reserved_grow.
+    rewrite (inv_reserved s I). lia.
+Qed.
+
+(* ------------------------------------------------------------------ TrackConsumersPool *)
+Lemma metrics_ok p ks rs :
+  pool_ok p ks rs ->
+  Forall (fun t => map t_cid t = map fst ks /\ Forall (trk_ok rs) t) (pool_metrics p).
+Proof.
+  induction p; cbn [pool_ok pool_metrics]; intros H; try constructor.
+  - tauto. - apply IHp; tauto. - apply IHp; tauto.
+Qed.
+
+Theorem track_consumers_exact cfg h :
+  fresh cfg = true ->
+  let s := run (init cfg) h in
+  Forall (fun t => map t_cid t = map g_id (st_regs s) /\
+                   Forall (fun e => t_res e = consumer_sum (t_cid e) (st_resvs s) /\ t_res e <= t_peak e) t)
+         (pool_metrics (st_pool s)).
+Proof.
+  intros F s. pose proof (run_inv _ h (init_inv cfg F)) as I. fold s in I.
+  pose proof (metrics_ok _ _ _ (inv_pool s I)) as M. rewrite keys_fst in M. exact M.
+Qed.
+
+Theorem registered_iff_live cfg h cid :
+  fresh cfg = true ->
+  let s := run (init cfg) h in
+  In cid (map g_id (st_regs s)) <-> In cid (map r_cid (st_resvs s)).
+Proof.
+  intros F s. pose proof (run_inv _ h (init_inv cfg F)) as I. fold s in I. split; intros H.
+  - apply in_map_iff in H. destruct H as (c & <- & Hc).
+    pose proof (inv_rc s I) as R. rewrite Forall_forall in R. destruct (R c Hc) as [R1 R2].
+    destruct (in_dec N.eq_dec (g_id c) (map r_cid (st_resvs s))) as [Y|Nn]; [assumption|].
+    apply cnt_zero_notin in Nn. lia.
+  - apply in_map_iff in H. destruct H as (x & <- & Hx).
+    pose proof (inv_reg s I) as G. rewrite Forall_forall in G.
+    rewrite <- keys_fst. apply in_map_iff. exists (rkey x). split; [reflexivity|]. apply G. now apply in_map.
+Qed.
+
+(* ------------------------------------------------------------------ PeakRecordingPool *)
+Definition peaks_are (P M : N) (p : pool) : Prop := Forall (fun x => x = (P, M)) (pool_peaks p).
+
+Lemma peaks_grow p ks rs sp cid n P M :
+  pool_ok p ks rs -> peaks_are P M p ->
+  peaks_are (N.max P (wsum g_all rs + n)) (N.max M (wsum g_all rs + n)) (pool_grow p sp cid n).
+Proof.
+  unfold peaks_are. induction p; cbn [pool_ok pool_grow pool_peaks peak_record]; intros Hok Hp; auto.
+  - destruct sp; constructor.
+  - apply IHp; tauto.
+  - destruct Hok as (Hi & Hr & _). inversion Hp; subst. inversion H1; subst. constructor; [reflexivity|auto].
+Qed.
+
+Lemma peaks_shrink p sp cid n p' : pool_shrink p sp cid n = Some p' -> pool_peaks p' = pool_peaks p.
+Proof.
+  revert p'. induction p; cbn [pool_shrink pool_peaks]; intros p' H.
+  - destruct (n <=? used); inversion H; reflexivity.
+  - destruct (n <=? used); inversion H; reflexivity.
+  - destruct sp; [destruct (n <=? spillable)|destruct (n <=? unspillable)]; inversion H; reflexivity.
+  - destruct (pool_shrink p sp cid n); [|discriminate]. destruct (tr_shrink cid n tracked); inversion H.
+    cbn [pool_peaks]. now apply IHp.
+  - destruct (pool_shrink p sp cid n); [|discriminate]. destruct (n <=? reserved); inversion H.
+    cbn [pool_peaks]. f_equal. now apply IHp.
+Qed.
+
+Lemma peaks_register p cid sp : pool_peaks (pool_register p cid sp) = pool_peaks p.
+Proof. induction p; cbn [pool_register pool_peaks]; auto; [destruct sp; reflexivity|congruence]. Qed.
+
+Lemma peaks_unregister p cid sp p' : pool_unregister p cid sp = Some p' -> pool_peaks p' = pool_peaks p.
+Proof.
+  revert p'. induction p; cbn [pool_unregister pool_peaks]; intros p' H; try (now inversion H).
+  - destruct sp; [destruct (1 <=? num_spill)|]; inversion H; reflexivity.
+  - destruct (pool_unregister p cid sp); inversion H. cbn [pool_peaks]. now apply IHp.
+  - destruct (pool_unregister p cid sp); inversion H. cbn [pool_peaks]. f_equal. now apply IHp.
+Qed.
+
+Lemma peaks_reset p ks rs P M :
+  pool_ok p ks rs -> peaks_are P M p -> peaks_are (wsum g_all rs) M (pool_reset_peak p).
+Proof.
+  unfold peaks_are. induction p; cbn [pool_ok pool_reset_peak pool_peaks]; intros Hok Hp; auto.
+  - apply IHp; tauto.
+  - destruct Hok as (Hi & Hr & _). inversion Hp; subst. inversion H1; subst. constructor; [reflexivity|auto].
+Qed.
+
+Lemma fresh_peaks p : fresh p = true -> peaks_are 0 0 p.
+Proof.
+  unfold peaks_are. induction p; cbn [fresh pool_peaks]; intros F; try constructor.
+  - apply andb_prop in F. now apply IHp.
+  - repeat (apply andb_prop in F; destruct F as [F ?]). destr_eqb; try discriminate. subst. reflexivity.
+  - repeat (apply andb_prop in F; destruct F as [F ?]). now apply IHp.
+Qed.
+
+(* a step that leaves the recorders alone and does not raise the total *)
+Lemma peaks_keep P M p p' :
+  peaks_are P M p -> pool_peaks p' = pool_peaks p -> pool_reserved p' <= P -> P <= M ->
+  peaks_are (N.max P (pool_reserved p')) (N.max M (pool_reserved p')) p'.
+Proof.
+  unfold peaks_are. intros Hp E L1 L2. rewrite E, !N.max_l by lia. exact Hp.
+Qed.
+
+Lemma step_peaks s o P M :
+  Inv s -> is_reset o = false -> peaks_are P M (st_pool s) -> total s <= P -> P <= M ->
+  let s' := fst (step s o) in
+  peaks_are (N.max P (total s')) (N.max M (total s')) (st_pool s').
+Proof.
+  intros I Hr Hp L1 L2. unfold total in *.
+  assert (Same : peaks_are (N.max P (pool_reserved (st_pool s))) (N.max M (pool_reserved (st_pool s))) (st_pool s)).
+  { apply (peaks_keep P M (st_pool s)); auto. }
+  assert (Grow : forall sp cid n, peaks_are (N.max P (pool_reserved (pool_grow (st_pool s) sp cid n)))
+                                   (N.max M (pool_reserved (pool_grow (st_pool s) sp cid n)))
+                                   (pool_grow (st_pool s) sp cid n)).
+  { intros. rewrite reserved_grow, (inv_reserved s I). eapply peaks_grow; eauto. apply I. }
+  assert (Shr : forall sp cid n p', pool_shrink (st_pool s) sp cid n = Some p' ->
+                 peaks_are (N.max P (pool_reserved p')) (N.max M (pool_reserved p')) p').
+  { intros sp cid n p' E. apply (peaks_keep P M (st_pool s)); auto using (peaks_shrink _ _ _ _ _ E).
+    pose proof (reserved_shrink _ _ _ _ _ E). lia. }
+  destruct o; try discriminate; cbv zeta; step_cases; auto;
+    try match goal with
+        | E : pool_try_grow _ _ _ _ _ = Some _ |- _ => apply try_grow_is_grow in E; subst; auto
+        end; eauto.
+  - apply (peaks_keep P M (st_pool s)); auto using peaks_register. rewrite reserved_register. assumption.
+  - (* drop *)
+    assert (K : pool_peaks p = pool_peaks (st_pool s) /\ pool_reserved p <= pool_reserved (st_pool s)).
+    { destruct (r_size r =? 0).
+      - inversion Heqo0; subst. split; [reflexivity|lia].
+      - split; [eapply peaks_shrink; eauto|]. pose proof (reserved_shrink _ _ _ _ _ Heqo0). lia. }
+    destruct K as [K1 K2].
+    assert (K' : pool_peaks p1 = pool_peaks p /\ pool_reserved p1 = pool_reserved p).
+    { destruct b.
+      - split; [eapply peaks_unregister; eauto|eapply reserved_unregister; eauto].
+      - inversion Heqo2; subst. auto. }
+    destruct K' as [K3 K4].
+    apply (peaks_keep P M (st_pool s)); auto; [congruence|lia].
+Qed.
+
+Lemma step_peaks_reset s P M :
+  Inv s -> peaks_are P M (st_pool s) ->
+  peaks_are (total s) M (st_pool (fst (step s OResetPeak))) /\ total (fst (step s OResetPeak)) = total s.
+Proof.
+  intros I Hp. unfold total. cbn [step fst upd st_pool]. rewrite reserved_reset. split; [|reflexivity].
+  rewrite (inv_reserved s I). eapply peaks_reset; eauto. apply I.
+Qed.
+
+Definition no_reset (h : list op) : bool := forallb (fun o => negb (is_reset o)) h.
+
+Lemma list_max_cons x l : list_max (x :: l) = N.max x (list_max l).
+Proof. reflexivity. Qed.
+
+Lemma run_peaks_noreset h : forall s P M,
+  Inv s -> no_reset h = true -> peaks_are P M (st_pool s) -> total s <= P -> P <= M ->
+  peaks_are (N.max P (list_max (map total (run_states s h)))) (N.max M (list_max (map total (run_states s h))))
+            (st_pool (run s h)).
+Proof.
+  induction h as [|o h IH]; intros s P M I Hn Hp L1 L2; cbn [run run_states map].
+  - cbn [list_max fold_right]. now rewrite !N.max_0_r.
+  - cbn [no_reset forallb] in Hn. apply andb_prop in Hn. destruct Hn as [Ho Hn]. apply negb_true_iff in Ho.
+    rewrite list_max_cons, !N.max_assoc. apply IH; auto.
+    + now apply step_inv.
+    + now apply step_peaks.
+    + lia.
+    + lia.
+Qed.
+
+Lemma run_max h : forall s P M,
+  Inv s -> peaks_are P M (st_pool s) -> total s <= P -> P <= M ->
+  exists P', peaks_are P' (N.max M (list_max (map total (run_states s h)))) (st_pool (run s h)).
+Proof.
+  induction h as [|o h IH]; intros s P M I Hp L1 L2; cbn [run run_states map].
+  - exists P. cbn [list_max fold_right]. now rewrite N.max_0_r.
+  - rewrite list_max_cons, N.max_assoc. destruct (is_reset o) eqn:R.
+    + destruct o; try discriminate. destruct (step_peaks_reset s P M I Hp) as [Hp' Ht].
+      rewrite Ht. rewrite (N.max_l M (total s)) by lia.
+      apply (IH _ (total s)); auto; [now apply step_inv|lia|lia].
+    + apply (IH _ (N.max P (total (fst (step s o))))); [now apply step_inv|now apply step_peaks|lia|lia].
+Qed.
+
+Lemma total_le_list_max h : forall s M,
+  total s <= M -> total (run s h) <= N.max M (list_max (map total (run_states s h))).
+Proof.
+  induction h as [|o h IH]; intros s M L; cbn [run run_states map].
+  - cbn [list_max fold_right]. lia.
+  - rewrite list_max_cons, N.max_assoc. apply IH. lia.
+Qed.
+
+Lemma init_total cfg : fresh cfg = true -> total (init cfg) = 0.
+Proof. intros F. unfold total. rewrite (inv_reserved _ (init_inv cfg F)). reflexivity. Qed.
+
+Theorem peak_max_is_max_ever cfg h :
+  fresh cfg = true ->
+  Forall (fun x => snd x = list_max (map total (init cfg :: run_states (init cfg) h)))
+         (pool_peaks (st_pool (run (init cfg) h))).
+Proof.
+  intros F. destruct (run_max h (init cfg) 0 0 (init_inv cfg F)) as (P' & Hp).
+  - cbn [init st_pool]. now apply fresh_peaks.
+  - rewrite init_total by assumption. lia.
+  - lia.
+  - cbn [map]. rewrite list_max_cons, init_total by assumption.
+    eapply Forall_impl; [|exact Hp]. cbv beta. intros x ->. reflexivity.
+Qed.
+
+Theorem peak_is_max_without_reset cfg h :
+  fresh cfg = true -> no_reset h = true ->
+  Forall (fun x => fst x = list_max (map total (init cfg :: run_states (init cfg) h)))
+         (pool_peaks (st_pool (run (init cfg) h))).
+Proof.
+  intros F Hn. pose proof (run_peaks_noreset h (init cfg) 0 0 (init_inv cfg F) Hn) as Hp.
+  cbn [map]. rewrite list_max_cons, init_total by assumption.
+  eapply Forall_impl; [|apply Hp].
+  - cbv beta. intros x ->. reflexivity.
+  - cbn [init st_pool]. now apply fresh_peaks.
+  - rewrite init_total by assumption. lia.
+  - lia.
+Qed.
+
+Theorem peak_is_max_since_reset cfg h1 h2 :
+  fresh cfg = true -> no_reset h2 = true ->
+  let s1 := run (init cfg) (h1 ++ [OResetPeak]) in
+  Forall (fun x => fst x = list_max (map total (s1 :: run_states s1 h2)))
+         (pool_peaks (st_pool (run (init cfg) (h1 ++ OResetPeak :: h2)))).
+Proof.
+  intros F Hn s1.
+  pose proof (run_inv _ h1 (init_inv cfg F)) as I0.
+  destruct (run_max h1 (init cfg) 0 0 (init_inv cfg F)) as (P0 & Hp0);
+    [cbn [init st_pool]; now apply fresh_peaks|rewrite init_total by assumption; lia|lia|].
+  destruct (step_peaks_reset _ _ _ I0 Hp0) as [Hp1 Ht].
+  assert (E1 : s1 = fst (step (run (init cfg) h1) OResetPeak)).
+  { unfold s1. rewrite run_app. reflexivity. }
+  assert (E2 : run (init cfg) (h1 ++ OResetPeak :: h2) = run s1 h2).
+  { rewrite run_app. cbn [run]. now rewrite <- E1. }
+  rewrite E2. rewrite <- E1 in Hp1, Ht.
+  assert (I1 : Inv s1) by (rewrite E1; now apply step_inv).
+  assert (LM : total s1 <= N.max 0 (list_max (map total (run_states (init cfg) h1)))).
+  { rewrite Ht. apply total_le_list_max. rewrite init_total by assumption. lia. }
+  rewrite <- Ht in Hp1.
+  pose proof (run_peaks_noreset h2 s1 (total s1) _ I1 Hn Hp1 (N.le_refl _) LM) as Hp.
+  cbn [map]. rewrite list_max_cons.
+  eapply Forall_impl; [|exact Hp]. cbv beta. intros x ->. reflexivity.
+Qed.
+
+(* ------------------------------------------------------------------ free / drop give back exactly the bytes *)
+Lemma notin_find_none rid rs : ~ In rid (map r_id rs) -> find_resv rid rs = None.
+Proof.
+  induction rs as [|x rs IH]; cbn [map In find_resv]; [reflexivity|]. intros H.
+  destruct (N.eqb_spec (r_id x) rid); [tauto|]. apply IH. tauto.
+Qed.
+
+Theorem free_returns_exact cfg h rid r :
+  fresh cfg = true ->
+  let s := run (init cfg) h in
+  find_resv rid (st_resvs s) = Some r ->
+  exists s' r', step s (OFree rid) = (s', DoneN (r_size r)) /\
+                total s' + r_size r = total s /\
+                find_resv rid (st_resvs s') = Some r' /\ r_size r' = 0.
+Proof.
+  intros F s Fr. pose proof (run_inv _ h (init_inv cfg F)) as I. fold s in I.
+  cbn [step]. unfold on_resv. rewrite Fr. unfold do_free.
+  pose proof (find_id _ _ _ Fr) as Hid.
+  destruct (N.eqb_spec (r_size r) 0) as [E|E].
+  - exists s, r. rewrite E. repeat split; auto. lia.
+  - rewrite <- Hid in Fr.
+    pose proof (set_size_shrink_eq _ _ _ (r_size r) Fr (N.le_refl _)) as W. rewrite N.sub_diag in W.
+    destruct (pool_shrink_ok (st_pool s) _ _ _ (r_spill r) (r_cid r) (r_size r) (inv_keys_nodup s I) W (inv_pool s I))
+      as (p' & Ep & Hp). rewrite Ep.
+    eexists. eexists. split; [reflexivity|]. unfold total. cbn [upd st_pool st_resvs]. split.
+    + eapply reserved_shrink; eauto.
+    + rewrite <- Hid. rewrite (find_set_size _ 0 _ _ Fr). split; reflexivity.
+Qed.
+
+Theorem drop_returns_exact cfg h rid r :
+  fresh cfg = true ->
+  let s := run (init cfg) h in
+  find_resv rid (st_resvs s) = Some r ->
+  exists s', step s (ODrop rid) = (s', Done) /\
+             total s' + r_size r = total s /\
+             find_resv rid (st_resvs s') = None.
+Proof.
+  intros F s Fr. pose proof (run_inv _ h (init_inv cfg F)) as I. fold s in I.
+  pose proof (step_good s (ODrop rid) I) as [I' NF].
+  pose proof (inv_reserved _ I') as T'. pose proof (inv_reserved _ I) as T.
+  revert I' NF T'. cbn [step]. unfold on_resv. rewrite Fr. unfold do_drop.
+  pose proof (find_id _ _ _ Fr) as Hid.
+  destruct (if r_size r =? 0 then Some (st_pool s) else pool_shrink (st_pool s) (r_spill r) (r_cid r) (r_size r));
+    [|intros _ NF; now elim NF].
+  destruct (reg_decr (r_cid r) (st_regs s)) as [[cs' last]|]; [|intros _ NF; now elim NF].
+  destruct (if last then pool_unregister p (r_cid r) (r_spill r) else Some p); [|intros _ NF; now elim NF].
+  cbn [fst snd upd st_pool st_resvs]. intros I' _ T'.
+  eexists. split; [reflexivity|]. unfold total. cbn [upd st_pool st_resvs]. rewrite T', T. split.
+  - rewrite Hid. pose proof (wsum_remove g_all _ _ _ Fr) as W. unfold gsel, g_all at 2 in W. exact W.
+  - rewrite Hid. apply notin_find_none.
+    destruct (find_split _ _ _ Fr) as (a & b & Ers & _ & _ & Erm). rewrite Erm.
+    pose proof (inv_rid_nodup s I) as Nd. rewrite Ers, map_app in Nd. cbn [map] in Nd.
+    apply NoDup_remove_2 in Nd. now rewrite map_app, <- Hid.
+Qed.
+
+(* ------------------------------------------------------------------ interleavings of per-thread operation lists *)
+Lemma interleaving_forallb (f : op -> bool) ts l :
+  interleaving ts l -> Forall (fun t => forallb f t = true) ts -> forallb f l = true.
+Proof.
+  induction 1 as [ts H|ts1 o t ts2 l H IH]; intros Hf; [reflexivity|].
+  apply Forall_app in Hf. destruct Hf as [F1 F2]. inversion F2; subst. cbn [forallb] in *.
+  apply andb_prop in H2. destruct H2 as [Ho Ht]. rewrite Ho. cbn [andb]. apply IH.
+  apply Forall_app. split; [assumption|]. constructor; assumption.
+Qed.
+
+(* every consequence of the invariant, for the state reached by any operation list *)
+Definition accounted (s : state) : Prop :=
+  total s = sum_sizes (st_resvs s) /\
+  total s < usize_lim /\
+  Forall (fun t => map t_cid t = map g_id (st_regs s) /\
+                   Forall (fun e => t_res e = consumer_sum (t_cid e) (st_resvs s) /\ t_res e <= t_peak e) t)
+         (pool_metrics (st_pool s)) /\
+  Forall (fun x => total s <= fst x /\ fst x <= snd x) (pool_peaks (st_pool s)).
+
+Lemma peaks_ge_total p ks rs :
+  pool_ok p ks rs -> Forall (fun x => wsum g_all rs <= fst x /\ fst x <= snd x) (pool_peaks p).
+Proof.
+  induction p; cbn [pool_ok pool_peaks]; intros H; try constructor.
+  - apply IHp; tauto.
+  - cbn [fst snd]. destruct H as (_ & -> & ? & ?). split; assumption.
+  - apply IHp; tauto.
+Qed.
+
+Lemma inv_accounted s : Inv s -> accounted s.
+Proof.
+  intros I. unfold accounted, total. rewrite (inv_reserved s I). repeat split.
+  - apply I.
+  - pose proof (metrics_ok _ _ _ (inv_pool s I)) as M. rewrite keys_fst in M. exact M.
+  - exact (peaks_ge_total _ _ _ (inv_pool s I)).
+Qed.
+
+Theorem accounted_after_any_history cfg h : fresh cfg = true -> accounted (run (init cfg) h).
+Proof. intros F. apply inv_accounted, run_inv, init_inv, F. Qed.
+
+Theorem accounted_after_every_step cfg h :
+  fresh cfg = true -> Forall accounted (run_states (init cfg) h).
+Proof.
+  intros F. eapply Forall_impl; [exact inv_accounted|]. apply run_states_inv, init_inv, F.
+Qed.
+
+Theorem interleaving_accounted cfg ts l :
+  fresh cfg = true -> interleaving ts l ->
+  accounted (run (init cfg) l) /\ Forall accounted (run_states (init cfg) l).
+Proof. intros F _. split; [now apply accounted_after_any_history|now apply accounted_after_every_step]. Qed.
+
+Theorem interleaving_greedy cfg lim ts l :
+  fresh cfg = true -> greedy_limit cfg = Some lim -> interleaving ts l ->
+  Forall (fun t => forallb fallible t = true) ts ->
+  total (run (init cfg) l) <= lim.
+Proof.
+  intros F G Hi Hf. apply greedy_never_exceeds_by_try_grow; auto. eapply interleaving_forallb; eauto.
 Qed.
